@@ -1,0 +1,7 @@
+//go:build !verif
+
+package datalog
+
+// verifPoint is a no-op unless the package is built with -tags verif
+// (runtime-monitoring hooks used by the /verif harness).
+func verifPoint(string) {}
